@@ -614,8 +614,8 @@ func VerifC46RangeRemoveOverlap() {
 
 // sql.IntersectRanges: "intersects each MySQLRange for each column expression".
 func VerifC46IntersectRanges() {
-	n := nd.IntRange("n", 2, nd.Bound(2, 3))
-	in := ndRanges(n, []int{nd.Bound(8, 10)}, 64)
+	n := 2
+	in := ndRanges(n, []int{nd.Bound(8, 16)}, 64)
 	p := ndPoints(1, 64)
 	args := make([]sql.MySQLRange, n)
 	want := true
